@@ -153,3 +153,57 @@ func TestC16HoldsOnTheImplementation(t *testing.T) {
 		}
 	}
 }
+
+// New shapes: a Dict inside a Dict key, and Qual keys written with numbered aliases.
+func TestC16CheckNestedAndRenamedKeys(t *testing.T) {
+	hd := "package p\n\n\n"
+	p1, p2 := "Point {\nX:1,\nY:9,\n}", "Point {\nX:10,\nY:2,\n}"
+	nested := []C16KV{{p2, "1"}, {p1, "2"}}
+	if m := C16Check(hd+"var _ = T {\n"+p1+":2,\n"+p2+":1,\n}", "raw-file", nested); m != "" {
+		t.Errorf("nested keys in order rejected: %s", m)
+	}
+	if m := C16Check(hd+"var _ = T {\n"+p2+":1,\n"+p1+":2,\n}", "raw-file", nested); m == "" {
+		t.Errorf("nested keys out of order accepted")
+	}
+	if m := C16Check("package p\n\nvar _ = T{\n\tPoint{\n\t\tX: 1,\n\t\tY: 9,\n\t}: 2,\n\tPoint{\n\t\tX: 10,\n\t\tY: 2,\n\t}: 1,\n}\n", "fmt-file", nested); m != "" {
+		t.Errorf("nested keys, formatted, rejected: %s", m)
+	}
+	if m := C16Check("package p\n\nvar _ = T{\n\tPoint{\n\t\tX: 10,\n\t\tY: 2,\n\t}: 1,\n\tPoint{\n\t\tX: 1,\n\t\tY: 9,\n\t}: 2,\n}\n", "fmt-file", nested); m == "" {
+		t.Errorf("nested keys out of order, formatted, accepted")
+	}
+	// the numbering the oracle expects: first come first served, numbered candidates skipped
+	al := c16Aliases([]string{"a.example/x", "b.example/x", "f.example/x0", "g.example/x1", "c.example/X"}, "")
+	want := map[string]string{"a.example/x": "x", "b.example/x": "x1", "f.example/x0": "x0", "g.example/x1": "x11", "c.example/X": "x2"}
+	for p, w := range want {
+		if al[p] != w {
+			t.Errorf("alias of %s: %s, want %s", p, al[p], w)
+		}
+	}
+	if a := c16Aliases([]string{"a.example/x", "b.example/x"}, "pkg"); a["a.example/x"] != "pkg_x" || a["b.example/x"] != "pkg_x1" {
+		t.Errorf("aliases with a prefix: %v", a)
+	}
+	imp := "package p\n\nimport (\nx \"a.example/x\"\nx1 \"b.example/x\"\nx0 \"f.example/x0\"\n)\n\n\nvar _ = f (x.A,x1.A,x0.A)\n"
+	ren := []C16KV{{"x1.Key", "0"}, {"x0.Key", "1"}, {"x.Key", "2"}}
+	if m := C16Check(imp+"var _ = T {\nx.Key:2,\nx0.Key:1,\nx1.Key:0,\n}", "raw-file", ren); m != "" {
+		t.Errorf("renamed keys in the order of the written text rejected: %s", m)
+	}
+	// the order of the texts the keys would have in an empty File (x, x, x0): rejected
+	if m := C16Check(imp+"var _ = T {\nx.Key:2,\nx1.Key:0,\nx0.Key:1,\n}", "raw-file", ren); m == "" {
+		t.Errorf("renamed keys ordered by their unnumbered text accepted")
+	}
+	// the real implementation on the stream
+	r := rand.New(rand.NewSource(16))
+	nt := 0
+	for i := 0; i < 300; i++ {
+		c := c16RenamedCase(r, i)
+		if m := (c16{}).Oracle(c, ExecFresh(c.Hist)); m != "" {
+			t.Fatalf("oracle rejects the real implementation: %s\n%s", m, c.Hist.Sexp())
+		}
+		if c.NonTrivial {
+			nt++
+		}
+	}
+	if nt < 100 {
+		t.Errorf("only %d of 300 renamed cases are decisive", nt)
+	}
+}
